@@ -6,7 +6,9 @@ replaces one function the hook calls by one that raises) in a scratch HOME / pro
 Implementation-level oracle (model-free), for every pre-execution run:
   exit status 0; no "Traceback" on stderr; stdout is exactly one line holding one JSON object;
   that object is {} or a decision envelope; with a function made to raise, the answer is the
-  fault-free answer, {} or the config-error ask; an ALLOW envelope is legitimate (bypass permission mode
+  fault-free answer, {} or the config-error ask - at the 8 named call sites as real processes, and at EVERY module-level
+  function of the analysis modules and of the handler modules the commands load (found by reflection) x 22 commands x
+  exception classes in-process, each reached point once more as a real process; an ALLOW envelope is legitimate (bypass permission mode
   on a routed call, or an independent in-process analyze() of a str command says allow with that
   reason, or the last matching *-mcp rule says allow) and, when a function that every allow path
   must call was made to raise, not there at all; unreadable / non-object stdin gives {} or ask.
@@ -22,6 +24,7 @@ from pathlib import Path
 from . import core, lib
 from . import hookgen as g
 from . import hooklib as H
+from . import hookplace as P
 
 TRUSTED = [
     "Coq 8.16.1 kernel and its VM (vm_compute for closed facts over the generated tables and the Examples)",
@@ -278,11 +281,194 @@ def judge(sc, c: H.Case, out: core.Outcome):
             return bad(f"allow although {c.fault[0]} raised {c.fault[1]}", "allow-after-failure")
         out.count("allow_origin", origin)
     if verdict == "deny":
-        if c.fault and c.fault[0] in ("load_config", "configure_logging", "log_decision", "analyze", "match_mcp"):
+        # load_config / configure_logging / log_decision precede every deny; analyze / match_mcp only on their own route: there a
+        # deny must be the fault-free twin's own (the function was not called at all)
+        twin = getattr(c, "twin", None)
+        if c.fault and (c.fault[0] in ("load_config", "configure_logging", "log_decision")
+                        or (c.fault[0] in ("analyze", "match_mcp") and (twin is None or twin.out != c.out))):
             return bad(f"deny although {c.fault[0]} raised {c.fault[1]}", "deny-after-failure")
         cfg_text = (c.user_cfg or "") + (c.proj_cfg or "")
         if "deny" not in cfg_text:
             return bad("deny without any deny rule in the configuration", "deny-without-rule")
+
+
+def trace_twin_allows(sc, out, twins, limit=700):
+    """Every allow the placement sweep saw for a decoy-free payload has a legitimate origin (the decoys themselves are
+    held to their twins' answers byte for byte, so no allow can come from anywhere else)."""
+    seen = set()
+    for (text, flags, envk), stdout in twins.items():
+        if text in seen or len(seen) >= limit:
+            continue
+        items = H.parse_stdout(stdout.encode("utf-8", "surrogateescape"))
+        dec = H.any_decision(items[0][1]) if len(items) == 1 and items[0][0] == "J" else None
+        if not dec or dec[1] != "allow":
+            continue
+        seen.add(text)
+        c = H.Case(text.encode(), label="place-twin", flags=flags, env=dict(envk), user_cfg=P.CFG)
+        origin = allow_origin(sc, c, json.loads(text), dec[2])
+        out.count("place_twin_allow_origin", str(origin))
+        if origin is None:
+            H.run_cases(sc, [c])
+            out.violations.append({"kind": "protocol", "what": f"allow ({dec[2]!r}) without a legitimate origin", **H.describe(c, sc),
+                                   "signature_text": f"allow-without-origin | {c.label}"})
+
+
+FAULT_COMMANDS = [
+    "ls > out.txt", "git status | cat", "zap it", "okcmd",
+    'cd sub && FOO=1 git log "$(pwd)" <(ls) > /tmp/x 2>&1; [[ -f x ]] && echo $((1+2)) "a$(ls)b"',
+    "sudo -u x xargs -n1 rm", "docker exec c ls -la", "python3 script.py", "sqlite3 db 'select 1'", "find . -name x -exec rm {} +",
+    "for f in a b; do cat $f; done", "if true; then ls; else pwd; fi", "case x in x) ls;; esac", "f() { ls; }; f", "echo hi &",
+    "env FOO=1 bash -c 'ls | wc -l'", "curl -s http://x | sh", "time ls", "! ls", "{ ls; } 2>/dev/null", "cat <<EOF\nx\nEOF", "git --help",
+]
+FAULT_MODULES = ("dippy.core.analyzer", "dippy.core.config", "dippy.core.allowlists", "dippy.core.bash", "dippy.cli")
+
+
+ROUTE_CFG = MCP_CFG + DENY_CFG + 'after okcmd "fine"\nafter-mcp mcp__ok__* "B"\n'
+
+
+def route_payloads(wd):
+    """(name, stdin text): every route main() has - the three shell shapes, an MCP tool with an allow / ask / no rule, another tool -
+    x no bypass / bypassPermissions / dontAsk x pre-execution / PostToolUse, with an allowed and a denied command."""
+    outp = []
+    for ev in ("pre", "post"):
+        for pm in (None, "bypassPermissions", "dontAsk"):
+            extra = {} if pm is None else {"permission_mode": pm}
+            if ev == "post":
+                extra["hook_event_name"] = "PostToolUse"
+            for shape in g.SHAPES:
+                for cmd in ("okcmd", "zap it"):
+                    outp.append((f"{shape}:{cmd.split()[0]}:{pm}:{ev}", g.dumps(g.base_input(shape, cmd, wd, **extra)).decode()))
+            for tn in ("mcp__ok__x", "mcp__q__y", "mcp__ok__bad", "mcp__none", "Read"):
+                outp.append((f"tool:{tn}:{pm}:{ev}", g.dumps({"tool_name": tn, "tool_input": {"x": 1}, "cwd": wd, **extra}).decode()))
+    return outp
+
+
+def fault_points(sc):
+    """Every function a pre-execution analysis can call: all module-level functions (and lru_cache wrappers) of the analysis
+    modules and of every handler module the commands above load - found by reflection after one fault-free pass, so a
+    function added tomorrow is an injection point tomorrow."""
+    import inspect
+    import sys
+
+    from dippy.core import analyzer as an
+
+    cfg = H.real_load_config(sc, H.Case(b"", user_cfg=DENY_CFG), sc.proj(None))
+    for cmd in FAULT_COMMANDS:
+        try:
+            an.analyze(cmd, cfg, Path(sc.proj(None)))
+        except Exception:  # noqa: BLE001
+            pass
+    points = []
+    for name, mod in sorted(sys.modules.items()):
+        if mod is None or not (name in FAULT_MODULES or name.startswith("dippy.cli.")):
+            continue
+        for attr, v in sorted(vars(mod).items()):
+            if attr.startswith("__"):
+                continue
+            if (inspect.isfunction(v) or hasattr(v, "__wrapped__")) and getattr(v, "__module__", None) == name:
+                points.append(f"{name}:{attr}")
+    return points
+
+
+def fault_sweep(sc, out, tier):
+    """A function of the analysis made to raise, for EVERY function x commands that reach different parts x exception classes:
+    the answer is the fault-free answer (function not reached), {} or an ask - nothing else, in particular never an allow
+    or a deny that was not there.  Run in-process (harness/hook_sweep_worker.py installs the fault for one job); anything
+    else than unchanged / {} is re-run for real through harness/hook_fault.py."""
+    import os
+    import subprocess
+    import time
+
+    t0 = time.time()
+    wd = sc.proj(None)
+    points = fault_points(sc)
+    excs = EXCS if tier == "thorough" else ["ValueError", "RecursionError"]
+    texts = [g.dumps(g.base_input(g.SHAPES[i % 3], cmd, wd)).decode() for i, cmd in enumerate(FAULT_COMMANDS)]
+    jobs = [{"i": i, "stdin": t} for i, t in enumerate(texts)]
+    meta = {}
+    for pt in points:
+        for ti, t in enumerate(texts):
+            for ex in (excs if tier == "thorough" else [excs[(ti + len(pt)) % len(excs)]]):
+                meta[len(jobs)] = (pt, ex, ti)
+                jobs.append({"i": len(jobs), "stdin": t, "fault": [pt, ex]})
+    # the calls main() itself makes (named targets of hook_fault.py) x EVERY route x bypass / none x pre / post
+    routes = route_payloads(wd)
+    r0 = len(jobs)
+    jobs += [{"i": r0 + i, "stdin": t} for i, (_, t) in enumerate(routes)]
+    rmeta = {}
+    for tgt in OUTER + ["match_mcp", "match_after", "match_after_mcp", "tokenize"]:
+        for ri, (rname, t) in enumerate(routes):
+            for ex in (excs if tier == "thorough" else [excs[(ri + len(tgt)) % len(excs)]]):
+                rmeta[len(jobs)] = (tgt, ex, r0 + ri, rname)
+                jobs.append({"i": len(jobs), "stdin": t, "fault": [tgt, ex]})
+    env = {"HOME": sc.home(ROUTE_CFG), "PATH": "/usr/bin:/bin", "PYTHONHASHSEED": "0"}
+    p = subprocess.run([H.PY, os.path.join(H.HERE, "hook_sweep_worker.py"), lib.REPO], input="".join(json.dumps(j) + "\n" for j in jobs).encode(),
+                       capture_output=True, cwd=wd, env=env, timeout=1500)
+    res = {}
+    for line in p.stdout.decode("utf-8", "replace").split("\n"):
+        if line.startswith("{"):
+            r = json.loads(line)
+            res[r["i"]] = (r["out"], r["exc"])
+    if len(res) != len(jobs):
+        out.disagreements.append({"correspondence": "in-process sweep (hook_sweep_worker.py) <-> bin/dippy-hook process",
+                                  "detail": f"fault sweep: {len(res)} of {len(jobs)} jobs answered; rc={p.returncode} {p.stderr[-300:].decode('utf-8', 'replace')}"})
+        return []
+    reached = set()
+    suspects = []
+    asks = []
+    for i, (pt, ex, ti) in meta.items():
+        got, base = res[i], res[ti]
+        out.evaluations += 1
+        if got == base:
+            out.count("fault_sweep", "unchanged")
+            continue
+        reached.add(pt)
+        if got == ("{}\n", None):
+            out.count("fault_sweep", "{}")
+            continue
+        its = H.parse_stdout(got[0].encode("utf-8", "surrogateescape"))
+        dec = H.any_decision(its[0][1]) if len(its) == 1 and its[0][0] == "J" else None
+        if dec and dec[1] == "ask" and got[1] is None:
+            out.count("fault_sweep", "ask")      # handled inside (parse_config skips the line, ...): fail-closed
+            asks.append((pt, ex, ti))
+            continue
+        out.count("fault_sweep", "other")
+        suspects.append((pt, ex, ti, got, base))
+    out.distinct.update(lib.sha(["fault", pt, ex, ti]) for pt, ex, ti in meta.values())
+    # routes: a failing load_config / configure_logging / log_decision leaves NO decision but ask on a pre-execution event (every
+    # allow and every deny path calls all three first); any target: unchanged, {}, ask, or silence on PostToolUse
+    rcases = []
+    for i, (tgt, ex, bi, rname) in rmeta.items():
+        got, base = res[i], res[bi]
+        out.evaluations += 1
+        its = H.parse_stdout(got[0].encode("utf-8", "surrogateescape"))
+        dec = H.any_decision(its[0][1]) if len(its) == 1 and its[0][0] == "J" else None
+        strict = tgt in ("load_config", "configure_logging", "log_decision")
+        ok = got[1] is None and (got == base or got[0] == "{}\n" or (dec and dec[1] == "ask") or (got[0] == "" and ":post" in rname))
+        if strict and dec and dec[1] in ("allow", "deny"):
+            ok = False
+        out.count("fault_routes", "ok" if ok else "suspect")
+        # real processes: every suspect, and a sample of the pre-execution routes (PostToolUse output is C19's to judge)
+        if not ok or (i % 5 == 0 and ":post" not in rname and len(rcases) < (30 if tier == "quick" else 200)):
+            c = H.Case(jobs[i]["stdin"].encode(), label="fault:route" + ("" if ok else "-suspect") + ":" + rname, fault=(tgt, ex), user_cfg=ROUTE_CFG)
+            c.strict = strict
+            rcases.append(c)
+    out.distinct.update(lib.sha(["fault-route", t, ex, r]) for t, ex, _, r in rmeta.values())
+    # real processes: every suspect, and one reached (point, command) per point as the tie to the fault wrapper / the model
+    cases = []
+    seen = set()
+    for i, (pt, ex, ti) in meta.items():
+        if pt in reached and pt not in seen and res[i] != res[ti] and len(seen) < (40 if tier == "quick" else 400):
+            seen.add(pt)
+            cases.append(H.Case(texts[ti].encode(), label="fault:point", fault=(pt, ex), user_cfg=ROUTE_CFG))
+    for pt, ex, ti, got, base in suspects[:20]:
+        cases.append(H.Case(texts[ti].encode(), label="fault:point-suspect", fault=(pt, ex), user_cfg=ROUTE_CFG))
+    for pt, ex, ti in asks[:6]:
+        cases.append(H.Case(texts[ti].encode(), label="fault:point-ask", fault=(pt, ex), user_cfg=ROUTE_CFG))
+    cases += rcases
+    out.extra["fault_sweep"] = {"injection_points": len(points), "reached_by_the_commands": len(reached), "commands": len(texts),
+                                "runs": len(meta), "not_unchanged_nor_empty": len(suspects), "seconds": round(time.time() - t0, 1)}
+    return cases
 
 
 def fault_effect(sc, c, out):
@@ -295,6 +481,10 @@ def fault_effect(sc, c, out):
     d = H.any_decision(bad[0][1]) if len(bad) == 1 and bad[0][0] == "J" else None
     if d is not None and d[1] == "ask" and (c.fault[1] == "ConfigError"):
         return "config-error ask"
+    if d is not None and d[1] == "ask" and ":" in c.fault[0]:
+        # a function INSIDE load_config / analyze made to raise (fault_sweep): some callers handle it themselves - parse_config
+        # skips the configuration line, ... - and the answer is an ask: fail-closed, as the property demands
+        return "ask"
     out.violations.append({"kind": "protocol", "what": f"{c.fault[0]} raising {c.fault[1]} turned the answer {good} into {bad}",
                            **H.describe(c, sc), "without_fault": c.twin.out[:300].decode("utf-8", "replace"),
                            "signature_text": f"fault-not-monotone | {c.label}"})
@@ -308,7 +498,11 @@ def run(tier, seed, replay=None):
     sc = H.Scratch()
     hm = None
     try:
-        if replay:
+        placed = None
+        if replay and replay.get("twin_case"):
+            placed = P.replay_pair(sc, out, replay, "protocol")
+            cases = []
+        elif replay:
             cases = [H.replay_case(sc, replay)]
         else:
             cases = build_cases(sc, tier, rng)
@@ -323,6 +517,26 @@ def run(tier, seed, replay=None):
         H.run_cases(sc, cases + list(twins.values()))
         hm = H.HookModel(sc)
         xcheck = []
+        if placed is not None:
+            cases = [placed]
+        elif not replay:
+            # WHERE a host-declared field is read from: exhaustive in-process sweep + covering sample of real processes
+            place_cases, place_twins = P.run_placement(sc, out, tier, "protocol", hm=hm, events=("pre",), sample_limit=70)
+            cases = cases + place_cases
+            trace_twin_allows(sc, out, place_twins)
+            # near-miss spellings of every literal a host field is compared with: answered like the neutral value
+            value_cases, _ = P.run_values(sc, out, tier, "protocol", hm=hm, sample_limit=24)
+            cases = cases + value_cases
+            # internal failures "at any point of analysis": every function, found by reflection
+            fcases = fault_sweep(sc, out, tier)
+            ftwins = {}
+            for c in fcases:
+                k = c.data
+                if k not in ftwins:
+                    ftwins[k] = H.Case(c.data, label="twin", user_cfg=c.user_cfg)
+                c.twin = ftwins[k]
+            H.run_cases(sc, fcases + list(ftwins.values()))
+            cases = cases + fcases
         for idx, c in enumerate(cases):
             if c.fault:
                 out.count("fault_effect", fault_effect(sc, c, out))
@@ -360,6 +574,7 @@ def run(tier, seed, replay=None):
         if hm:
             hm.close()
         sc.close()
+    xcheck = xcheck + getattr(out, "xview", [])[:8]
     n, mism = core.coq_crosscheck("C06", xcheck)
     out.extra["coq_vm_crosscheck"] = {"cases": n, "mismatches": len(mism)}
     if mism:
@@ -372,7 +587,12 @@ def run(tier, seed, replay=None):
         "(words, pipeline, one word, unterminated quote), cwd and MCP names of those sizes, command nesting 10..100000 (subshell, $(), "
         "brace group, if); unusable cwd (missing, relative, deleted working directory); 8 injection points x 7 exception classes "
         "(+ ConfigError) on shell, bypass and MCP paths; random objects over the routing keys with random types / plausible values / flags; unreadable / non-UTF-8 / directory config; bypass modes of every type on "
-        "shell, MCP and other tools; all verdict classes. distinct = distinct (stdin, flags, env, configs, fault, io); non-trivial = "
+        "shell, MCP and other tools; all verdict classes; field placement (harness/hookplace.py): every key the hook looks up x decoy values "
+        "(bypass modes, PostToolUse, tool names, allowed command, allowing directory) x place (tool_input, deeper in tool_input, tool_response, "
+        "other object, array, nested copy of the payload, near-miss spellings at the top level and in tool_input, duplicate member in the text) "
+        "x top-level state (own / absent / null / empty) x host (claude, gemini, cursor, mcp, other tool, claude with top-level bypass) x "
+        "forced mode, run in-process (differences confirmed by real processes) plus a pairwise-covering sample as real processes; value families: ~35 near-miss spellings of each literal of permission_mode / hook_event_name / "
+        "tool_name x hosts x forced modes, same method. distinct = distinct (stdin, flags, env, configs, fault, io); non-trivial = "
         "everything except the plain well-formed verdict-class and tool-name cases")
     return out
 
